@@ -187,6 +187,11 @@ def handle (op : String) (args : List String) : String :=
     match Sexp.parse (" ".intercalate args) with
     | some req => runReq req
     | none => "bad-sexp"
+  | "genloop" =>
+    -- `c10.genloop total pending d1 d2 …` : does the loop's counter logic exit within these passes?
+    match args.mapM String.toNat? with
+    | some (total :: pending :: ds) => toString (genLoop total pending ds)
+    | _ => "bad-request"
   | "h10" =>
     -- the hypothesis of `worker_refines_fresh_partial` alone: `true` / `false` (same request as `run`;
     -- the history is taken WITHOUT its closing `process`, which `H10` appends itself)
